@@ -389,6 +389,7 @@ pub fn c20(sc: &Scenario, rr: &RunResult) -> Vec<Violation> {
             out.push(viol("C20", "hang-after-panic", format!("{}: the job never terminates afterwards:\n{}", site, rr.outcome.deadlock_report())));
             return out;
         }
+        _ if rr.outcome.progress_since_last_window => return out,
         _ => {
             out.push(viol("C20", "no-termination-after-panic", format!("{}: the job did not terminate within the budget ({} steps)", site, rr.outcome.steps)));
             return out;
